@@ -777,6 +777,15 @@ func Harness_app_twice() {
 	verifLabel("site", strings.Join(cmd, " "))
 	tok, _ := verifNum("qty")
 	logText := "2021/01/01:\n  X: " + tok + "\n  x: " + tok + "\n  f0: 1\n"
+	if verifChoose("long-day", 2) == 1 {
+		// a day of 36 lines, two of them repeats (sizes at which implementations switch strategy)
+		verifLabel("log", "day-of-36-lines")
+		logText = "2021/01/01:\n"
+		for i := 0; i < 34; i++ {
+			logText += "  n" + string(rune('a'+i/10)) + string(rune('0'+i%10)) + ": " + string(rune('1'+i%7)) + "\n"
+		}
+		logText += "  na3: 2\n  nc1: " + tok + "\n"
+	}
 	dbText := "f0:\n  x: 2\n  X: 2\nf1:\n  f0: 1\n"
 	args := append([]string{"--no-color", "--logfile=" + verifFile("log", logText), "--database=" + verifFile("db", dbText)}, cmd...)
 	o1, e1 := hApp(-1, args...)
